@@ -5,7 +5,7 @@ TokenScannerException; a reported .pos outside 0..len(input); a call that exceed
 logical step budget (non-termination)."""
 import copy
 
-from .. import core, enum, gen_abbr, gen_cssabbr, probes, stretch
+from .. import core, enum, gen_abbr, gen_cssabbr, hostile, probes, stretch
 
 ID = 'C07'
 RULE = ('cases = (input string, configuration); exhaustive strings up to the bound over the 26-symbol markup alphabet x markup '
@@ -155,7 +155,7 @@ class Mon:
         from emmet.scanner import ScannerException
         from emmet.token_scanner import TokenScannerException
         self.ctx = ctx
-        self.expand = emmet.expand
+        self.expand = hostile.wrap(emmet.expand, ctx)
         self.ok_types = (ScannerException, TokenScannerException)
         self.caches = {}
         self.n = 0
